@@ -112,13 +112,13 @@ static void do_op(Cmd *c) {
     } else if (is_op(c, "malloc")) {
         size_t n = pos_u64(c, 0), u = cc_dynamic_pool_used_bytes(pool), np = npages();
         uint8_t *p = cc_dynamic_pool_malloc(n, pool);
-        o("st=%s", op_refused ? "1" : "-"); o_ptr(p);
+        o("st=%s", (op_refused && !p) ? "1" : "-"); o_ptr(p);
         if (kv_u64(c, "probe", 0) && p) o(" absalign=%d", (int)((uintptr_t)p % pool->alignment_boundary == 0));
         handed_out(p, n, u, np);
     } else if (is_op(c, "calloc")) {
         size_t a = pos_u64(c, 0), b = pos_u64(c, 1), u = cc_dynamic_pool_used_bytes(pool), np = npages();
         uint8_t *p = cc_dynamic_pool_calloc(a, b, pool);
-        o("st=%s", op_refused ? "1" : "-"); o_ptr(p);
+        o("st=%s", (op_refused && !p) ? "1" : "-"); o_ptr(p);
         if (p) {
             int z = 1; size_t n = a * b, off; int pgi = page_of(p, &off);
             PageInfo *pg[MAXPG]; page_list(pg);
